@@ -69,7 +69,7 @@ c("convert_small_int_order", "C18", A,
 
 c("reduce_default_axis", "C04", A,
   "    if input_kwarg_dict.get(\"axis\", None) is not None:\n        unit = in_unit ** (power_map(in_shape[input_kwarg_dict[\"axis\"]]))",
-  "    # ufunc.reduce reduces over axis 0 unless told otherwise\n    axis = input_kwarg_dict.get(\"axis\", 0)\n    if axis is not None and in_shape:\n        unit = in_unit ** (power_map(in_shape[axis]))")
+  "    # ufunc.reduce reduces over axis 0 unless told otherwise\n    axis = input_kwarg_dict.get(\"axis\", 0)\n    if axis is not None and in_shape:\n        if not isinstance(axis, tuple):\n            axis = (axis,)\n        nelem = 1\n        for ax in axis:\n            nelem *= in_shape[ax]\n        unit = in_unit ** (power_map(nelem))")
 
 c("parse_symbolic_exponent", "C20", U,
   "        if isinstance(power, Symbol):\n            raise UnitParseError(f\"Invalid unit expression '{unit_expr}'.\")",
